@@ -15,6 +15,8 @@ pub const ENGINE_ID: u64 = 0xB;
 fn gen_cfg(m: &HashMap<String, String>, focus: &str) -> GenCfg {
     let with_256 = !m.contains_key("no-256");
     GenCfg {
+        only_fams: m.get("fams").map(|f| f.split(',').map(|x| x.to_string()).collect()).unwrap_or_default(),
+        max_threads: geti(m, "max-threads", 0) as usize,
         focus: focus.to_string(),
         max_window: geti(m, "max-window", if focus == "wnaf" { 13 } else { 8 }) as usize,
         min_window: geti(m, "min-window", 2) as usize,
@@ -28,12 +30,16 @@ fn gen_cfg(m: &HashMap<String, String>, focus: &str) -> GenCfg {
 fn cfg_json(c: &GenCfg) -> J {
     J::obj()
         .set("focus", J::s(&c.focus))
+        .set("only_fams", J::Arr(c.only_fams.iter().map(|f| J::s(f)).collect()))
+        .set("max_threads", J::u(c.max_threads))
         .set("max_window", J::u(c.max_window))
         .set("min_window", J::u(c.min_window))
         .set("with_256", J::Bool(c.with_256))
 }
 fn cfg_from(j: &J) -> GenCfg {
     GenCfg {
+        only_fams: j.get("only_fams").and_then(|x| x.as_arr()).map(|a| a.iter().filter_map(|x| x.as_str().map(|s| s.to_string())).collect()).unwrap_or_default(),
+        max_threads: j.get("max_threads").and_then(|x| x.as_usize()).unwrap_or(0),
         focus: j.get("focus").and_then(|x| x.as_str()).unwrap_or("c20").to_string(),
         max_window: j.get("max_window").and_then(|x| x.as_usize()).unwrap_or(8),
         min_window: j.get("min_window").and_then(|x| x.as_usize()).unwrap_or(2),
